@@ -191,6 +191,7 @@ func added(before, after []string) []string {
 // started is one attempt to start a server with a cache path.
 type started struct {
 	ok    bool   // listening
+	addr  string // where it listens (when ok)
 	pin   string // key identity observed by the independent client ("" if the handshake failed)
 	raw   string // pin over the raw SubjectPublicKeyInfo bytes as presented
 	err   string // start-up error text (when !ok) or handshake error (when ok && pin=="")
@@ -200,29 +201,44 @@ type started struct {
 
 type driver interface {
 	name() string
-	start(cache string) started
+	start(cache string) started         // on defaultAddr
+	startAt(cache, addr string) started // on the given listen address
 }
+
+// defaultAddr is the listen address of every start that is meant to succeed.
+const defaultAddr = "127.0.0.1:0"
 
 type inproc struct {
 	r        *mon.Run
 	lifespan time.Duration // 0: the library's default, as the program itself asks for
+	uid      int           // != 0: sstls.Listen is called in a child process (--child=c08listen) running as this user
+	self     string        // the vcheck executable for that child
 }
 
 func (d inproc) name() string {
+	n := "sstls.Listen"
 	if d.lifespan != 0 {
-		return "sstls.Listen with lifespan " + d.lifespan.String()
+		n += " with lifespan " + d.lifespan.String()
 	}
-	return "sstls.Listen"
+	if d.uid != 0 {
+		n += fmt.Sprintf(" in a process of uid %d", d.uid)
+	}
+	return n
 }
 
-func (d inproc) start(cache string) started {
+func (d inproc) start(cache string) started { return d.startAt(cache, defaultAddr) }
+
+func (d inproc) startAt(cache, addr string) started {
+	if d.uid != 0 {
+		return d.startChild(cache, addr)
+	}
 	type res struct {
 		l   sstls.Listener
 		err error
 	}
 	ch := make(chan res, 1)
 	go func() {
-		l, err := sstls.Listen("tcp", "127.0.0.1:0", "", d.lifespan, cache)
+		l, err := sstls.Listen("tcp", addr, "", d.lifespan, cache)
 		ch <- res{l, err}
 	}()
 	var rs res
@@ -255,7 +271,7 @@ func (d inproc) start(cache string) started {
 			}()
 		}
 	}()
-	st := started{ok: true}
+	st := started{ok: true, addr: l.Addr().String()}
 	st.stop = func() string {
 		l.Close()
 		done := make(chan struct{})
@@ -288,13 +304,21 @@ type binary struct {
 	r    *mon.Run
 	path string
 	home string
+	uid  int // != 0: the program runs as this user
 }
 
-func (binary) name() string { return "curlrevshell binary on a pty" }
+func (d binary) name() string {
+	if d.uid != 0 {
+		return fmt.Sprintf("curlrevshell binary on a pty as uid %d", d.uid)
+	}
+	return "curlrevshell binary on a pty"
+}
 
-var listenRe = regexp.MustCompile(`Listening on (127\.0\.0\.1:\d+)\D`)
+var listenRe = regexp.MustCompile(`Listening on ([0-9.]+:\d+|\[[0-9A-Fa-f:.]+\]:\d+)\D`)
 
-func (d binary) start(cache string) started {
+func (d binary) start(cache string) started { return d.startAt(cache, defaultAddr) }
+
+func (d binary) startAt(cache, addr string) started {
 	env := []string{"TERM=xterm", "HOME=" + d.home, "PATH=" + os.Getenv("PATH")}
 	for _, k := range []string{"GORACE", "TMPDIR"} {
 		if v, ok := os.LookupEnv(k); ok {
@@ -302,7 +326,7 @@ func (d binary) start(cache string) started {
 		}
 	}
 	d.r.Count("binary_starts", 1)
-	p, err := startOnPty(d.path, []string{"-listen-address", "127.0.0.1:0", "-tls-certificate-cache", cache}, env, d.home)
+	p, err := startOnPtyAs(d.path, []string{"-listen-address", addr, "-tls-certificate-cache", cache}, env, d.home, d.uid)
 	if err != nil {
 		return started{infra: "cannot start the binary on a pty: " + err.Error()}
 	}
@@ -321,7 +345,7 @@ func (d binary) start(cache string) started {
 		}
 		return started{err: fmt.Sprintf("exit status %d signal %q; terminal: %s", p.status, p.signal, tailStr(out, 400))}
 	}
-	st := started{ok: true}
+	st := started{ok: true, addr: m[1]}
 	st.stop = func() string {
 		defer p.Close()
 		if p.Exited() {
@@ -932,12 +956,29 @@ type pathModel struct {
 	path     string
 	identity string // pin of the run that created the current file ("" = no file)
 	snap     fstate
+	// a file left at the path by a start that FAILED (at bind, after it had
+	// generated the cache): no client ever saw its key, so until a later start
+	// serves from it the identity is "a key whose certificate is in the file"
+	leftover bool
+	allowed  map[string]bool
+	survived int  // failed starts this cache file has been through since it was last served from
+	emptied  bool // a failed start with no file at the path left none
 }
 
 // runHistory executes one PRNG-chosen history of starts, stops, deletions,
 // cache-less starts and starts below new directories against the model.
 func runHistory(r *mon.Run, d driver, engine string, idx, nsteps int, root string) {
+	runHistoryF(r, d, engine, idx, nsteps, root, nil)
+}
+
+// runHistoryF: with fo != nil the histories also contain starts that FAIL for
+// a reason that has nothing to do with the cache (see failstart.go).
+func runHistoryF(r *mon.Run, d driver, engine string, idx, nsteps int, root string, fo *failOpts) {
 	rng := r.Rng(engine, idx)
+	cuid, cself := 0, ""
+	if fo != nil {
+		cuid, cself = fo.uid, fo.self
+	}
 	// who creates the cache files of this history: the driver itself, or a
 	// library caller that asks for another certificate lifespan (a cache
 	// whose certificate is already past its notAfter, or soon will be, is
@@ -945,16 +986,20 @@ func runHistory(r *mon.Run, d driver, engine string, idx, nsteps int, root strin
 	var creator driver
 	switch idx % 3 {
 	case 1:
-		creator = inproc{r: r, lifespan: []time.Duration{time.Nanosecond, time.Microsecond, time.Millisecond}[(idx/3)%3]}
+		creator = inproc{r: r, lifespan: []time.Duration{time.Nanosecond, time.Microsecond, time.Millisecond}[(idx/3)%3], uid: cuid, self: cself}
 	case 2:
-		creator = inproc{r: r, lifespan: []time.Duration{time.Second, time.Hour, 24 * time.Hour, 100 * 365 * 24 * time.Hour}[(idx/3)%4]}
+		creator = inproc{r: r, lifespan: []time.Duration{time.Second, time.Hour, 24 * time.Hour, 100 * 365 * 24 * time.Hour}[(idx/3)%4], uid: cuid, self: cself}
 	}
 	os.MkdirAll(root, 0o755)
+	if cuid != 0 {
+		os.Chown(root, cuid, cuid) // the runs of this history are another user's: the tree is theirs
+	}
 	paths := []*pathModel{{path: filepath.Join(root, "cert.txtar")}}
 	var running []started
 	var hist []histStep
 	var sig []string
-	nests := 0
+	nests, nfails := 0, 0
+	lastFailed := false // did the last start-fail step fail to start, as it should
 	viol := func(key, what string) {
 		r.Violate(engine, idx, key, what+fmt.Sprintf(" [history so far via %s: %s]", d.name(), strings.Join(sig, " ")), map[string]any{"history": hist, "via": d.name()})
 	}
@@ -988,7 +1033,10 @@ func runHistory(r *mon.Run, d driver, engine string, idx, nsteps int, root strin
 		}
 	}
 
-	startWith := func(pm *pathModel, stepName string) {
+	// startWith: one start with the cache path of pm on listen address addr.
+	// expectFail: addr was chosen so that listening cannot work; the outcome
+	// is judged whichever way it goes.
+	startWith := func(pm *pathModel, stepName, addr string, expectFail bool) {
 		created := missingDirs(root, pm.path)
 		pre := snapshot(pm.path)
 		tb := tree(root)
@@ -997,11 +1045,11 @@ func runHistory(r *mon.Run, d driver, engine string, idx, nsteps int, root strin
 		}
 		var st started
 		if creator != nil && !pre.Exists {
-			st = creator.start(pm.path)
+			st = creator.startAt(pm.path, addr)
 			stepName += " by " + creator.name()
 			r.Count("caches_created_with_another_lifespan", 1)
 		} else {
-			st = d.start(pm.path)
+			st = d.startAt(pm.path, addr)
 			if creator != nil {
 				r.Count("starts_on_caches_created_with_another_lifespan", 1)
 				if c := creator.(inproc); c.lifespan <= time.Millisecond {
@@ -1022,34 +1070,112 @@ func runHistory(r *mon.Run, d driver, engine string, idx, nsteps int, root strin
 		}
 		post := snapshot(pm.path)
 		ta := tree(root)
+		if expectFail {
+			if st.ok {
+				r.Count("failstart_listened_after_all", 1) // judged as the successful start it is
+			} else {
+				lastFailed = true
+				r.Count("failstart_failed", 1)
+				r.Count("failstart_failed_"+engine, 1)
+			}
+		}
 		if pre.Exists {
 			r.Count("file_unchanged_checks", 1)
+			rewritten := "restart-file-rewritten"
+			if expectFail && !st.ok {
+				rewritten = "failed-start-touched-cache"
+			}
 			if df := pre.diff(post); df != "" {
-				viol("restart-file-rewritten", fmt.Sprintf("start with an existing cache modified it (%s)", df))
+				viol(rewritten, fmt.Sprintf("%s with an existing cache modified it (%s)", startKind(expectFail, st.ok, addr), df))
 			}
 			if ad := added(tb, ta); len(ad) > 0 {
-				viol("restart-file-rewritten", fmt.Sprintf("start with an existing cache created %v next to it", ad))
+				viol(rewritten, fmt.Sprintf("%s with an existing cache created %v next to it", startKind(expectFail, st.ok, addr), ad))
 			}
 			switch {
+			case !st.ok && expectFail:
+				hs.Note = "start failed as it had to; cache untouched: " + tailStr(st.err, 160)
+				r.Count("failstart_failed_with_an_existing_cache", 1)
+				pm.survived++
+			case !st.ok && pm.leftover:
+				// the statement allows a later run to refuse what a failed run left
+				hs.Note = "start refuses the file a failed start left: " + tailStr(st.err, 200)
+				r.Count("failstart_leftover_refused_later", 1)
+				r.Count("failstart_missing_cache_followed_up", 1)
 			case !st.ok:
 				hs.Note = "start failed: " + tailStr(st.err, 200)
 				r.Count("restart_intact_cache_start_failed", 1)
 				r.Inconclusive(fmt.Sprintf("%s[%d]: start with an intact cache failed: %s", engine, idx, tailStr(st.err, 300)))
 			case st.pin == "":
 				viol("restart-served-mismatched-pair", "start with an intact cache succeeded but no handshake completes: "+st.err)
+			case pm.leftover && !pm.allowed[st.pin]:
+				viol("restart-served-different-key", fmt.Sprintf("start with the cache %s which an earlier FAILED start had left serves pin %s; the certificates in that file have %v", rel(root, pm.path), st.pin, keys(pm.allowed)))
+				pm.leftover, pm.identity = false, st.pin
+			case pm.leftover:
+				r.Count("failstart_leftover_served_later", 1)
+				r.Count("failstart_missing_cache_followed_up", 1)
+				hs.Note = "serves the key of the file the failed start left; file untouched"
+				pm.leftover, pm.identity, pm.survived = false, st.pin, 0
 			case st.pin != pm.identity:
 				viol("restart-served-different-key", fmt.Sprintf("start with the existing cache %s serves pin %s; the run that created the file served %s", rel(root, pm.path), st.pin, pm.identity))
 			default:
 				r.Count("restart_same_key", 1)
 				hs.Note = "same key as the creating run; file untouched"
+				if pm.survived > 0 {
+					r.Count("failstart_same_key_after_failed_starts", 1)
+					pm.survived = 0
+				}
 			}
 		} else {
 			switch {
+			case !st.ok && expectFail:
+				// the failing run may leave nothing, or a complete cache; directories it
+				// made for the cache and the file are held to the owner-only clause
+				r.Count("failstart_failed_with_a_missing_cache", 1)
+				if len(created) > 0 {
+					r.Count("failstart_failed_below_new_directories", 1)
+				}
+				want := map[string]bool{rel(root, pm.path): true}
+				var made []string
+				for _, c := range created {
+					want[rel(root, c)+"/"] = true
+					if _, err := os.Lstat(c); err == nil {
+						made = append(made, c)
+					}
+				}
+				for _, ad := range added(tb, ta) {
+					if !want[ad] {
+						viol("stray-file-created", fmt.Sprintf("%s with the missing cache %s created %s", startKind(true, false, addr), rel(root, pm.path), ad))
+					}
+				}
+				ctx := fmt.Sprintf("%s[%d] %s via %s", engine, idx, stepName, d.name())
+				if post.Exists {
+					r.Count("failstart_left_a_cache", 1)
+					checkCreated(r, engine, idx, pm.path, made, ctx)
+					b, _ := os.ReadFile(pm.path)
+					pm.leftover, pm.allowed, pm.identity = true, certPins(b), "(left by a failed start)"
+					hs.Note = fmt.Sprintf("start failed as it had to and left a cache (%d certificate keys in it): %s", len(pm.allowed), tailStr(st.err, 160))
+					backdate(pm.path, idx*31+len(hist))
+				} else {
+					r.Count("failstart_left_no_cache", 1)
+					pm.emptied = true
+					hs.Note = "start failed as it had to and left no cache: " + tailStr(st.err, 160)
+					for _, c := range made {
+						r.Count("dirs_checked", 1)
+						if di, err := os.Lstat(c); err == nil && (!di.IsDir() || di.Mode().Perm()&0o077 != 0) {
+							r.Violate(engine, idx, "cache-dir-mode", fmt.Sprintf("%s: directory created for the cache has mode %s (accessible to group/other)", ctx, di.Mode()), map[string]any{"dir": c, "mode": di.Mode().String()})
+						}
+					}
+				}
 			case !st.ok:
 				hs.Note = "start failed: " + tailStr(st.err, 200)
 				viol("missing-cache-not-regenerated", fmt.Sprintf("start with a missing cache file (%d missing directories) fails instead of regenerating: %s", len(created), tailStr(st.err, 300)))
 			default:
 				r.Count("restart_regenerated", 1)
+				if pm.emptied {
+					pm.emptied = false
+					r.Count("failstart_regenerated_after_nothing_was_left", 1)
+					r.Count("failstart_missing_cache_followed_up", 1)
+				}
 				hs.Note = fmt.Sprintf("regenerated (%d directories created)", len(created))
 				checkCreated(r, engine, idx, pm.path, created, fmt.Sprintf("%s[%d] %s via %s", engine, idx, stepName, d.name()))
 				want := map[string]bool{rel(root, pm.path): true}
@@ -1072,7 +1198,7 @@ func runHistory(r *mon.Run, d driver, engine string, idx, nsteps int, root strin
 		}
 		pm.snap = snapshot(pm.path)
 		if !pm.snap.Exists {
-			pm.identity = ""
+			pm.identity, pm.leftover, pm.survived = "", false, 0
 		}
 		checkUntouched(stepName, pm)
 		if st.stop != nil {
@@ -1090,6 +1216,15 @@ func runHistory(r *mon.Run, d driver, engine string, idx, nsteps int, root strin
 		} else {
 			for {
 				choice = []int{0, 0, 0, 0, 1, 1, 2, 2, 3, 3, 4, 4}[rng.IntN(12)]
+				if fo != nil {
+					choice = []int{0, 0, 1, 2, 3, 4, 5, 5, 5, 5, 5, 5}[rng.IntN(12)]
+					if s == 1 { // the first start is still up
+						choice = 5
+					}
+				}
+				if choice == 5 {
+					break // a failing start leaves nothing running
+				}
 				if choice == 1 && len(running) == 0 {
 					continue
 				}
@@ -1119,7 +1254,7 @@ func runHistory(r *mon.Run, d driver, engine string, idx, nsteps int, root strin
 				k = "start-missing"
 			}
 			sig = append(sig, fmt.Sprintf("%s(%s)", k, rel(root, pm.path)))
-			startWith(pm, k)
+			startWith(pm, k, defaultAddr, false)
 		case 1: // stop one running server
 			j := rng.IntN(len(running))
 			st := running[j]
@@ -1148,7 +1283,7 @@ func runHistory(r *mon.Run, d driver, engine string, idx, nsteps int, root strin
 				os.Remove(pm.path)
 			}
 			sig = append(sig, fmt.Sprintf("%s(%s)", step, rel(root, pm.path)))
-			pm.identity, pm.snap = "", snapshot(pm.path)
+			pm.identity, pm.snap, pm.leftover, pm.survived = "", snapshot(pm.path), false, 0
 			hist = append(hist, histStep{Step: step, Path: rel(root, pm.path)})
 			checkUntouched(step, nil)
 		case 3: // start without a cache
@@ -1195,7 +1330,72 @@ func runHistory(r *mon.Run, d driver, engine string, idx, nsteps int, root strin
 			pm := &pathModel{path: filepath.Join(p, "cert.txtar")}
 			paths = append(paths, pm)
 			sig = append(sig, fmt.Sprintf("start-nested(depth %d)", depth))
-			startWith(pm, fmt.Sprintf("start-nested-%d", depth))
+			startWith(pm, fmt.Sprintf("start-nested-%d", depth), defaultAddr, false)
+		case 5: // a start that cannot listen, for a reason that has nothing to do with the cache
+			nfails++
+			kind := fo.kinds[rng.IntN(len(fo.kinds))]
+			pick := rng.IntN(5)
+			if nfails == 1 {
+				kind, pick = fo.first, 0
+				if idx%5 == 4 {
+					pick = 4
+				}
+			}
+			var with, without []*pathModel
+			for _, pm := range paths {
+				if pm.identity != "" {
+					with = append(with, pm)
+				} else {
+					without = append(without, pm)
+				}
+			}
+			var pm *pathModel
+			switch {
+			case pick <= 2 && len(with) > 0:
+				pm = with[rng.IntN(len(with))]
+			case pick <= 3 && len(without) > 0:
+				pm = without[rng.IntN(len(without))]
+			default: // below directories that do not exist yet
+				nests++
+				depth := 1 + rng.IntN(3)
+				p := filepath.Join(root, fmt.Sprintf("nest%d", nests))
+				for k := 0; k < depth; k++ {
+					p = filepath.Join(p, fmt.Sprintf("d%d", k))
+				}
+				pm = &pathModel{path: filepath.Join(p, "cert.txtar")}
+				paths = append(paths, pm)
+			}
+			var up []string
+			for _, st := range running {
+				if st.addr != "" {
+					up = append(up, st.addr)
+				}
+			}
+			_, program := d.(binary)
+			addr, label, release := failAddr(kind, rng, up, program)
+			r.Count("failstart_steps", 1)
+			r.Count("failstart_steps_"+engine, 1)
+			r.Count("failstart_kind_"+kind, 1)
+			if len(running) > 0 {
+				r.Count("failstart_while_other_instances_run", 1)
+			}
+			if kind == "inuse" && len(up) > 0 {
+				r.Count("failstart_on_the_address_of_a_running_instance", 1)
+			}
+			if cuid != 0 {
+				r.Count("failstart_steps_as_another_user", 1)
+			}
+			state := "missing"
+			if pm.identity != "" {
+				state = "existing"
+			}
+			sig = append(sig, fmt.Sprintf("start-fail[%s](%s %s)", label, state, rel(root, pm.path)))
+			lastFailed = false
+			startWith(pm, fmt.Sprintf("start-fail[%s on %s]", label, addr), addr, true)
+			if lastFailed {
+				r.Count("failstart_failed_kind_"+kind, 1)
+			}
+			release()
 		}
 	}
 	// closing round: every cache that exists is started once more
@@ -1210,7 +1410,7 @@ func runHistory(r *mon.Run, d driver, engine string, idx, nsteps int, root strin
 			continue
 		}
 		sig = append(sig, fmt.Sprintf("final-start(%s)", rel(root, pm.path)))
-		startWith(pm, "final-start")
+		startWith(pm, "final-start", defaultAddr, false)
 		for _, st := range running {
 			if note := st.stop(); note != "" {
 				r.Inconclusive(fmt.Sprintf("%s[%d]: %s", engine, idx, note))
@@ -1288,7 +1488,7 @@ func binaryEngines(r *mon.Run, bin string, f *cacheFile) {
 			r.Eval(1)
 			root := filepath.Join(r.Work, "binrestart", fmt.Sprint(i))
 			os.MkdirAll(filepath.Join(root, "home"), 0o700)
-			runHistory(r, binary{r, bin, filepath.Join(root, "home")}, "binrestart", i, 5, filepath.Join(root, "t"))
+			runHistory(r, binary{r: r, path: bin, home: filepath.Join(root, "home")}, "binrestart", i, 5, filepath.Join(root, "t"))
 			if ad := tree(filepath.Join(root, "home")); len(ad) > 0 {
 				r.Violate("binrestart", i, "stray-file-created", fmt.Sprintf("runs with an explicit cache path created files under $HOME: %v", ad), nil)
 			}
@@ -1310,7 +1510,7 @@ func binaryEngines(r *mon.Run, bin string, f *cacheFile) {
 		}
 		fc := faultCase{engine: "binfault", index: j, keyBase: keyBase, what: what,
 			data: damage(f.data, bf.kind, bf.pos), allowed: map[string]bool{f.pin: true}, raws: map[string]bool{f.raw: true}}
-		out, detail := judgeFault(r, binary{r, bin, home}, filepath.Join(r.Work, "binfault", fmt.Sprint(j)), fc)
+		out, detail := judgeFault(r, binary{r: r, path: bin, home: home}, filepath.Join(r.Work, "binfault", fmt.Sprint(j)), fc)
 		r.Count("binfault_cases", 1)
 		r.Distinct("binfault:" + string(fc.data))
 		switch out {
@@ -1334,7 +1534,7 @@ func binaryEngines(r *mon.Run, bin string, f *cacheFile) {
 // ---- Run ---------------------------------------------------------------------------------
 
 func Run(r *mon.Run) {
-	r.Rule = "fault enumeration over ONE freshly generated cache file F (created by sstls.Listen, ≈900 bytes): engine trunc = every prefix length 0…|F|−1; engine corrupt = every byte position × {flip low bit, replace by \\n, delete}, classified by region (comment, cert marker, cert PEM, key marker, key PEM) — `exhaustive` refers to these two enumerations of that one file only; the thorough tier adds engine bitflip = the other seven single-bit flips of every byte of F. Engine compose = a fixed list of multi-member damages built from two caches A and B (cert of A with key of B and vice versa, swapped/duplicated/extra/empty/missing members, PEM chains, CRLF) plus PRNG compositions. Engine perm = nesting depth 1–4 × number of pre-existing directories × umask {000,022}, in a child process per umask. Engines restart (in-process sstls.Listen) and binrestart (real -race binary on a pty) = PRNG histories over {start, stop, delete cache, start with cache path \"\", start below new directories} checked against the model identity[path] = pin served by the creating run; in two histories of three the cache files are created by a library caller (sstls.Listen) asking for another certificate lifespan (1 ns, 1 µs, 1 ms: the certificate has expired by the next start; 1 s, 1 h, 1 d, 100 y), every later start going through the engine's own driver; binfault = a PRNG sample of truncations/single-byte damages replayed through the binary. Oracle for every damaged file: start-up error, or a completed handshake presenting the original public key (identity = canonical PKIX encoding of the key the client parsed; a same key in different SubjectPublicKeyInfo bytes is counted as same_key_but_spki_bytes_differ, not judged); file bytes/inode/mtime/ctime/mode and directory listing unchanged (mtime is back-dated first so granularity cannot hide a rewrite). distinct_nontrivial = distinct damaged file contents per engine (hash; no-op damages excluded) + distinct history signatures (step kinds and paths) + distinct perm configurations + distinct crash cases + distinct foreign cases. Engine crash = REAL interrupted writes instead of planted prefixes: the cache-creating start runs in a child process (vcheck --child=c08die calling sstls.GetCertificate or sstls.Listen in a fresh directory below 0–2 not-yet-existing directories, umask 000/022/077) under RLIMIT_FSIZE = p for EVERY p in 0…|F|+3 (both tiers; thorough three times with other PRNG choices), so the kernel lets exactly p bytes of whatever file the implementation writes through and then either kills the process with SIGXFSZ (mode kill, three cases of five) or fails the write with EFBIG so that the program's own error path runs (mode efbig = what a Go program gets); plus the real binary exec'ed on a pty under the same limit (--child=c08limit; 8/80 cases); plus, when strace can attach (probed; otherwise coverage.crash_strace_dimension says NOT explored), the child under strace -e inject: SIGKILL or ENOSPC/EIO/EDQUOT at the 1st/2nd write, SIGKILL or EIO at rename*/fsync/fdatasync/link*/chmod*, at the 2nd mkdir*, SIGKILL at the 4th–6th close (an expression that matches nothing in the implementation never fires: crash_strace_fault_never_matched). Afterwards nothing is cleaned up except what an operator would do (PRNG: nothing, or deleting the cache file itself) and three later starts (in-process sstls.Listen; the real binary for some binary cases) are judged: no file at the configured path ⇒ the start must succeed, leave an owner-only regular file there and complete a handshake (missing-cache-not-regenerated otherwise, whatever else the dead run left in the directory); a file at the path ⇒ start-up error, or a completed handshake presenting a key whose certificate the harness's own PEM/x509 scan finds in that file (once a start of the case has served from / regenerated the file: exactly that key), and the file's bytes/inode/mtime/ctime/mode unchanged (back-dated first); after the dead run and after every later start every file and directory below the fresh cache directory, leftovers included, must have no group/other permission bits. What each cut-short run left (names, modes) is tallied in coverage.crash_leftovers_seen, how it ended in coverage.crash_how_the_runs_ended. Engine foreign = the mirror image of engine crash: foreign entries present BEFORE a start that has to generate the cache. One repetition (quick 1, thorough 6 with other PRNG choices) = EVERY one of 35 name patterns a temporary/backup of the cache plausibly has (<name>.tmp, .<name>.tmp, <name>~, .new, .bak, .lock, .part, .XXXXXX, .<random>, .<digits>, <stem>.tmp<ext>, …) × EVERY one of 11 kinds of entry (empty file, key-less scrap, complete cache of another identity, symbolic link to a file in the same directory / elsewhere / nowhere / to a directory, hard link to a file in the same directory / elsewhere, empty / non-empty directory) planted in the existing cache directory with a lax mode (0644 0666 0664 0640 0604 0660 0444 0755 0606; directories 0755 0777 0775 0750 1777); every pattern planted in the deepest existing parent while 1–2 cache directories are still to be made (applied to the cache name and to the first missing directory's name); an EMPTY file with each lax mode, or a dangling symbolic link, at the cache path itself; 60 PRNG mixtures of 2–6 entries in the cache directory and its parent; 12 controls (nothing planted / only a 0600 file); cache names cert.txtar, cache, tls.cache.txtar; base and 0–2 pre-existing directories above with lax modes (never judged: only directories created for the cache are the program's); umasks 000 022 077 027 002 007, one child process (--child=c08foreign, in-process sstls.Listen) per umask; engine binforeign = 6/48 PRNG-picked cases of that list through the real binary. Oracle: no file at the cache path ⇒ the start must succeed (missing-cache-not-regenerated; an empty file at the path is an incomplete write: error expected, file untouched; a failing start with a dangling link at the path is counted, not judged); afterwards the harness scans every regular file below the case root (cache directories, parents, the `elsewhere` directory the planted links point into) with its own PEM/PKCS#8/SEC1 parse + DER search for the private key of the identity the start serves: every inode holding it must have no group/other bits (cache-file-mode when it is the file behind the cache path — e.g. a planted lax file that was truncated, filled and renamed into place keeps its mode — otherwise private-key-in-lax-file), the file behind the cache path must be a regular owner-only file, directories created for the cache owner-only, nothing added but the cache file and those directories (planted entries may disappear: counted); two later starts must serve the same key and leave the file's bytes/inode/times/mode alone, and the scan is repeated"
+	r.Rule = "fault enumeration over ONE freshly generated cache file F (created by sstls.Listen, ≈900 bytes): engine trunc = every prefix length 0…|F|−1; engine corrupt = every byte position × {flip low bit, replace by \\n, delete}, classified by region (comment, cert marker, cert PEM, key marker, key PEM) — `exhaustive` refers to these two enumerations of that one file only; the thorough tier adds engine bitflip = the other seven single-bit flips of every byte of F. Engine compose = a fixed list of multi-member damages built from two caches A and B (cert of A with key of B and vice versa, swapped/duplicated/extra/empty/missing members, PEM chains, CRLF) plus PRNG compositions. Engine perm = nesting depth 1–4 × number of pre-existing directories × umask {000,022}, in a child process per umask. Engines restart (in-process sstls.Listen) and binrestart (real -race binary on a pty) = PRNG histories over {start, stop, delete cache, start with cache path \"\", start below new directories} checked against the model identity[path] = pin served by the creating run; in two histories of three the cache files are created by a library caller (sstls.Listen) asking for another certificate lifespan (1 ns, 1 µs, 1 ms: the certificate has expired by the next start; 1 s, 1 h, 1 d, 100 y), every later start going through the engine's own driver; binfault = a PRNG sample of truncations/single-byte damages replayed through the binary. Oracle for every damaged file: start-up error, or a completed handshake presenting the original public key (identity = canonical PKIX encoding of the key the client parsed; a same key in different SubjectPublicKeyInfo bytes is counted as same_key_but_spki_bytes_differ, not judged); file bytes/inode/mtime/ctime/mode and directory listing unchanged (mtime is back-dated first so granularity cannot hide a rewrite). distinct_nontrivial = distinct damaged file contents per engine (hash; no-op damages excluded) + distinct history signatures (step kinds and paths) + distinct perm configurations + distinct crash cases + distinct foreign cases. Engine crash = REAL interrupted writes instead of planted prefixes: the cache-creating start runs in a child process (vcheck --child=c08die calling sstls.GetCertificate or sstls.Listen in a fresh directory below 0–2 not-yet-existing directories, umask 000/022/077) under RLIMIT_FSIZE = p for EVERY p in 0…|F|+3 (both tiers; thorough three times with other PRNG choices), so the kernel lets exactly p bytes of whatever file the implementation writes through and then either kills the process with SIGXFSZ (mode kill, three cases of five) or fails the write with EFBIG so that the program's own error path runs (mode efbig = what a Go program gets); plus the real binary exec'ed on a pty under the same limit (--child=c08limit; 8/80 cases); plus, when strace can attach (probed; otherwise coverage.crash_strace_dimension says NOT explored), the child under strace -e inject: SIGKILL or ENOSPC/EIO/EDQUOT at the 1st/2nd write, SIGKILL or EIO at rename*/fsync/fdatasync/link*/chmod*, at the 2nd mkdir*, SIGKILL at the 4th–6th close (an expression that matches nothing in the implementation never fires: crash_strace_fault_never_matched). Afterwards nothing is cleaned up except what an operator would do (PRNG: nothing, or deleting the cache file itself) and three later starts (in-process sstls.Listen; the real binary for some binary cases) are judged: no file at the configured path ⇒ the start must succeed, leave an owner-only regular file there and complete a handshake (missing-cache-not-regenerated otherwise, whatever else the dead run left in the directory); a file at the path ⇒ start-up error, or a completed handshake presenting a key whose certificate the harness's own PEM/x509 scan finds in that file (once a start of the case has served from / regenerated the file: exactly that key), and the file's bytes/inode/mtime/ctime/mode unchanged (back-dated first); after the dead run and after every later start every file and directory below the fresh cache directory, leftovers included, must have no group/other permission bits. What each cut-short run left (names, modes) is tallied in coverage.crash_leftovers_seen, how it ended in coverage.crash_how_the_runs_ended. Engine foreign = the mirror image of engine crash: foreign entries present BEFORE a start that has to generate the cache. One repetition (quick 1, thorough 6 with other PRNG choices) = EVERY one of 35 name patterns a temporary/backup of the cache plausibly has (<name>.tmp, .<name>.tmp, <name>~, .new, .bak, .lock, .part, .XXXXXX, .<random>, .<digits>, <stem>.tmp<ext>, …) × EVERY one of 11 kinds of entry (empty file, key-less scrap, complete cache of another identity, symbolic link to a file in the same directory / elsewhere / nowhere / to a directory, hard link to a file in the same directory / elsewhere, empty / non-empty directory) planted in the existing cache directory with a lax mode (0644 0666 0664 0640 0604 0660 0444 0755 0606; directories 0755 0777 0775 0750 1777); every pattern planted in the deepest existing parent while 1–2 cache directories are still to be made (applied to the cache name and to the first missing directory's name); an EMPTY file with each lax mode, or a dangling symbolic link, at the cache path itself; 60 PRNG mixtures of 2–6 entries in the cache directory and its parent; 12 controls (nothing planted / only a 0600 file); cache names cert.txtar, cache, tls.cache.txtar; base and 0–2 pre-existing directories above with lax modes (never judged: only directories created for the cache are the program's); umasks 000 022 077 027 002 007, one child process (--child=c08foreign, in-process sstls.Listen) per umask; engine binforeign = 6/48 PRNG-picked cases of that list through the real binary. Oracle: no file at the cache path ⇒ the start must succeed (missing-cache-not-regenerated; an empty file at the path is an incomplete write: error expected, file untouched; a failing start with a dangling link at the path is counted, not judged); afterwards the harness scans every regular file below the case root (cache directories, parents, the `elsewhere` directory the planted links point into) with its own PEM/PKCS#8/SEC1 parse + DER search for the private key of the identity the start serves: every inode holding it must have no group/other bits (cache-file-mode when it is the file behind the cache path — e.g. a planted lax file that was truncated, filled and renamed into place keeps its mode — otherwise private-key-in-lax-file), the file behind the cache path must be a regular owner-only file, directories created for the cache owner-only, nothing added but the cache file and those directories (planted entries may disappear: counted); two later starts must serve the same key and leave the file's bytes/inode/times/mode alone, and the scan is repeated. Engines failstart (sstls.Listen) and binfailstart (real binary on a pty) = the restart histories again (same step kinds, same model, files created with other lifespans in two of three) with one more step kind drawn half of the time and always as the second step, while the first start is still up: a start that FAILS for a reason that has nothing to do with the cache, because its listen address cannot be bound — kind inuse = the address:port of an instance of the same history that is still running (up to three are kept up), inuse-foreign = the address:port of a plain TCP listener the harness holds, notlocal = an address no interface has (203.0.113.1:0, 198.51.100.7:4443, 203.0.113.200:443, [2001:db8::1]:0), malformed = 127.0.0.1:99999, [::1, 127.0.0.1, 127.0.0.1:-1, ::1:0, [127.0.0.1:0, 127.0.0.1:65536 and, for the library only, nonsense, 127.0.0.1:0:0 (the program appends :0 to an address without a port: 127.0.0.1 is an ordinary address for it, ::1:0 an address no interface has, and a bare word would be looked up as a host name), privport = 127.0.0.1:<port below net.ipv4.ip_unprivileged_port_start> in histories all of whose runs are processes of uid 65534 in a tree owned by that user (every fourth failstart history through --child=c08listen = sstls.Listen + handshake loop in its own process, every second binfailstart history = the program started with that credential; coverage.failstart_privport_dimension says what was possible) — × the cache path given to the failing start: a tracked path with a cache (three draws of five), a tracked path whose cache is missing, a new path below 1–3 not-yet-existing directories. Whether the start fails is observed (one that listens after all is judged as the ordinary start it then is; failstart_listened_after_all). Oracle = the same model: a cache file that existed before the failing start has the same bytes/inode/mtime/ctime/mode after it and nothing was added next to it (failed-start-touched-cache), every other tracked file is untouched, and every later start with that path — the history goes on, and ends with one more start per existing cache — serves the key of the run that created the file; with no file at the path the failing run may leave nothing (a later start regenerates) or a file: that file and the directories made for it must be owner-only, nothing else may have been created, and a later start on it fails with an error or serves a key whose certificate the harness's own PEM/x509 scan finds in the file, from then on exactly that key, file untouched"
 	r.Assumptions = []string{
 		"engines trunc/corrupt/compose/binfault model torn writes as prefixes of the final content planted at the configured path (what a crash during os.WriteFile of a new file leaves); engine crash makes no such assumption: the writing process really is killed (SIGXFSZ via RLIMIT_FSIZE after exactly p bytes, SIGKILL injected by strace) or its write really fails (EFBIG, injected ENOSPC/EIO/EDQUOT) and whatever it left is what later runs meet. Power loss with reordered block writes is not modelled",
 		"engine crash: the real binary cannot be killed at byte granularity without a tracer (the Go runtime drops SIGXFSZ, so under RLIMIT_FSIZE its write fails with EFBIG and it exits with an error); deaths mid-write are produced in the library child, which runs the same sstls.GetCertificate/Listen code",
@@ -1345,13 +1545,15 @@ func Run(r *mon.Run) {
 		"a binary that does not exit within 20 s of Ctrl+D is inconclusive here (exit behaviour is C20)",
 		"a start without cache path is only required to leave existing caches alone; whether its key is fresh is counted, not judged",
 		"engine foreign: the planted entries stand for things the program did not make (leftovers of a copy/restore/editor or of another version, entries of another user of a shared directory); harness and program run under one uid, so foreign ownership itself is not reproduced — what is judged is the mode of whatever inode ends up holding the private key, which is what a second user's access depends on",
+		"engines failstart/binfailstart: a start that cannot listen is still 'a run with a certificate cache file configured' — it loads or generates the cache before it tries to bind — so 'an existing cache file is never rewritten' and the identity of later runs are demanded across it; nothing is demanded of the failing run's error text or exit status (C20's subject). A file the failing run generated before it failed was never served to anybody: its identity is taken from the certificates the harness finds in it, and a later run refusing it with an error is accepted (counted as failstart_leftover_refused_later)",
+		"engines failstart/binfailstart: the addresses used to make listening fail touch no network: documentation-prefix addresses are only bound, never connected to, and no host names are used; on a system where such a bind succeeds (ip_nonlocal_bind, no privileged ports) the step is an ordinary start and the per-kind floor reports the dimension as not exercised",
 		"engine foreign: a key that ends up in a planted inode whose mode the program tightened to owner-only before writing is counted (foreign_key_in_planted_inode_tightened_first), not judged; pre-existing directories keep whatever mode they had and are not judged; FIFOs/devices under temporary-like names are not planted (opening them would block, a progress question this property does not ask)",
 	}
 
 	var bin string
 	var binErr error
 	binDone := make(chan struct{})
-	wantBin := r.WantEngine("binrestart") || r.WantEngine("binfault") || r.WantEngine("crash") || r.WantEngine("binforeign")
+	wantBin := r.WantEngine("binrestart") || r.WantEngine("binfault") || r.WantEngine("crash") || r.WantEngine("binforeign") || r.WantEngine("binfailstart")
 	go func() {
 		defer close(binDone)
 		if wantBin {
@@ -1435,6 +1637,14 @@ func Run(r *mon.Run) {
 			}
 		}
 	}
+	if r.WantEngine("failstart") || r.WantEngine("binfailstart") {
+		b := bin
+		if binErr != nil || !r.WantEngine("binfailstart") {
+			b = ""
+		}
+		failstartEngine(r, b)
+		r.Logf("failstart done")
+	}
 	if r.WantEngine("crash") {
 		nominal := 1000
 		if fa != nil && len(fa.data) > 2 {
@@ -1509,4 +1719,6 @@ func Run(r *mon.Run) {
 	r.Floor("foreign_later_starts_same_key", 900)
 	r.Floor("foreign_empty_file_at_cache_path_starts", 10)
 	r.Floor("foreign_controls_nothing_planted", 4)
+	// engines failstart / binfailstart: starts that cannot listen
+	failstartFloors(r)
 }
